@@ -40,9 +40,10 @@ def record_errors(cfg, u, x, logl, blobs, want_blobs):
     return errs
 
 
-def coherent_monitor(prefix="pipe"):
-    """C07: current set after every step, appended batch at commit, history prefix unchanged."""
-    memo = {"hist_digests": []}
+def coherent_monitor(prefix="pipe", resumed=False):
+    """C07: current set after every step, appended batch at commit, history prefix unchanged.
+    resumed=True: the reference for append-only is the history found at the first commit (a loaded checkpoint)."""
+    memo = {"hist_digests": None if resumed else []}
 
     def mon(ev):
         p = ev.probe
@@ -56,7 +57,7 @@ def coherent_monitor(prefix="pipe"):
             for field, row, det in errs[:1]:
                 p.violate(f"{prefix}:{ev.step}:{field}", f"iteration {ev.iter} after {ev.step}: particle {row} is not a coherent record: {det}", iter=ev.iter)
             a = cur["assignments"]
-            if ev.step in ("resample", "mutate") and (a is None or len(a) != len(cur["u"])):
+            if ev.step in ("resample", "mutate") and (a is None or len(a) != len(cur["u"])) and not (ev.step == "resample" and float(beta) == 0.0):  # (at beta=0 the set is about to be replaced by prior draws)
                 p.violate(f"{prefix}:{ev.step}:assignments", f"iteration {ev.iter} after {ev.step}: assignments has {None if a is None else len(a)} entries for {len(cur['u'])} particles", iter=ev.iter)
         if ev.step == "resample" and cur["u"] is not None:
             memo["active"] = {k: (None if cur[k] is None else np.array(cur[k], copy=True)) for k in ("u", "x", "logl", "assignments", "blobs")}
@@ -208,8 +209,9 @@ def reweight_errors(st, n_particles, ess_ratio, vv, beta_prev, w, first=False):
     return out
 
 
-def schedule_monitor(prefix="sched"):
-    memo = {"beta_prev": None, "w": None, "first": True}
+def schedule_monitor(prefix="sched", resumed=False):
+    """resumed=True: the run starts from a loaded checkpoint; the previous temperature is the last one of the loaded history."""
+    memo = {"beta_prev": None, "w": None, "first": not resumed}
 
     def mon(ev):
         p = ev.probe
@@ -218,6 +220,8 @@ def schedule_monitor(prefix="sched"):
         if ev.step == "reweight":
             w = np.asarray(ev.info["weights"], dtype=float)
             memo["w"] = w.copy()
+            if memo["beta_prev"] is None and not memo["first"]:
+                memo["beta_prev"] = float(st._history["beta"][-1]) if st._history["beta"] else 0.0
             for key, msg in reweight_errors(st, cfg["n_particles"], cfg["ess_ratio"], cfg["vv"], memo["beta_prev"], w, first=memo["first"]):
                 p.violate(f"{prefix}:{key}", f"iteration {ev.iter}: {msg}", iter=ev.iter)
             memo["first"] = False
